@@ -350,3 +350,61 @@ def no_rounding_rule(repo: Repo, prop: str, rule_id: str, module_prefixes, floor
         else:
             r.ok(anchor, f"module {short}: no rounding to decimals", key=f"module:{short}")
     return r
+
+
+# ---------------------------------------------------------------------------------------------------------------------
+def exact_coordinate_equality_rule(repo, prop: str, rule_id: str, module_prefixes=("",)):
+    """Points that coincide are recognised by distance (Point.__eq__, norm(a - b) < TOL) everywhere in the library: coordinates of
+    the 'same' point reached through two chains of transformations differ in the last bits. A bit-for-bit comparison of coordinate
+    arrays (np.array_equal / array_equiv, np.all(a == b), (a == b).all(), position == position) therefore fails exactly at the
+    seams - between chained shapes, after a rotation - where sharing matters. The expected number of such comparisons is zero;
+    the matcher is exercised on an embedded positive example on every run."""
+    import ast as _ast
+
+    from .model import attr_chain
+    from .report import RuleRun
+
+    r = RuleRun(prop, rule_id, floor=1, what="no bit-for-bit comparison of coordinate arrays (array_equal, all(a == b), position == position): coincident points are recognised by distance")
+
+    def coordinate_like(e) -> bool:
+        txt = _ast.unparse(e)
+        return any(k in txt for k in ("position", "point", "coord", "vertex", "center", "origin"))
+
+    def hits(tree):
+        out = []
+        for n in _ast.walk(tree):
+            if isinstance(n, _ast.Call):
+                nm = (attr_chain(n.func) or "").split(".")[-1]
+                if nm in ("array_equal", "array_equiv") and len(n.args) >= 2 and any(coordinate_like(a) for a in n.args[:2]):
+                    out.append(n)
+                elif nm == "all" and ((n.args and isinstance(n.args[0], _ast.Compare)) or (isinstance(n.func, _ast.Attribute) and isinstance(n.func.value, _ast.Compare))):
+                    cmp_ = n.args[0] if n.args and isinstance(n.args[0], _ast.Compare) else n.func.value
+                    if isinstance(cmp_.ops[0], (_ast.Eq, _ast.NotEq)) and (coordinate_like(cmp_.left) or coordinate_like(cmp_.comparators[0])):
+                        out.append(n)
+            elif isinstance(n, _ast.Compare) and len(n.ops) == 1 and isinstance(n.ops[0], (_ast.Eq, _ast.NotEq)):
+                sides = [n.left, n.comparators[0]]
+                if all(isinstance(s_, _ast.Attribute) and s_.attr in ("position", "positions") for s_ in sides):
+                    out.append(n)
+        return out
+
+    probe = _ast.parse("def f(a, b):\n    return np.array_equal(a.point.position, b.position) or (a.position == b.position).all() or np.all(a.position == b.position)")
+    if len(hits(probe)) < 3:
+        from .model import AnalysisError
+
+        raise AnalysisError(f"{rule_id}: the matcher no longer recognises its own positive example")
+    n_fn = 0
+    for fn in sorted(repo.all_functions(), key=lambda f_: f_.qualname):
+        short = fn.module.name[len("classy_blocks.") :] if fn.module.name.startswith("classy_blocks.") else fn.module.name
+        if not any(short.startswith(p) for p in module_prefixes):
+            continue
+        n_fn += 1
+        for k, node in enumerate(hits(fn.node)):
+            r.bad(
+                fn,
+                f"{fn.qualname}: '{_ast.unparse(node)[:80]}' compares coordinates bit for bit: two points that coincide up to rounding (the seam between two chained shapes, a rotated copy) are taken for "
+                "different points - they are not shared, the blocks built on them do not share vertices across the seam",
+                node,
+                key=f"exact#{k}",
+            )
+    r.ok(None, f"{n_fn} functions scanned; matcher verified on its embedded positive example", key="scan")
+    return r
